@@ -29,8 +29,15 @@ def archs():
     return _ARCHS
 
 
+# pseudo targets of the "scalar" shim family (C17): the scalar overloads compiled without and with FMA contraction available
+SCALAR_TARGETS = [
+    {"name": "scalar", "tag": "xsimd::sse2", "flags": [], "bits": 0},
+    {"name": "scalar_avx2fma", "tag": "xsimd::fma3<xsimd::avx2>", "flags": ["-mavx2", "-mfma"], "bits": 0},
+]
+
+
 def arch(name):
-    for a in archs():
+    for a in archs() + SCALAR_TARGETS:
         if a["name"] == name:
             return a
     raise KeyError(name)
@@ -143,12 +150,12 @@ class BuildError(Exception):
 
 def build_shims(families, targets=None, cc="g++"):
     """returns {family: {target: so_path}}"""
-    targets = targets or [a["name"] for a in archs()]
     jobs = []
     res = {}
     for f in families:
         res[f] = {}
-        for t in targets:
+        tl = [a["name"] for a in SCALAR_TARGETS] if f == "scalar" else (targets or [a["name"] for a in archs()])
+        for t in tl:
             j = shim_job(f, t, cc)
             res[f][t] = j[0]
             jobs.append(j)
